@@ -225,7 +225,11 @@ Leaves(t) == IF IsLeaf(t) THEN <<t>> ELSE Flat([i \in 1..Len(t.kids) |-> Leaves(
 \* Which output token IS the input token is decided by its text, so the text must not be ambiguous: when another token of the
 \* same (loosely normalised) text was merged or split away - '_' '_' -> '__' next to a '-' - the one that is left need not be this one.
 \* The clause is asserted when the output has at least as many tokens of this text as the input.
-SameText(n, tok) == VisL(n) = VisL(tok) /\ Len(n.cp) = Len(tok.cp)
+\* (a token whose loose visible text is empty - a lone '_' or dash-like mark - cannot be told from any other such token by its text)
+SameText(n, tok) == VisL(tok) # <<>> /\ VisL(n) = VisL(tok) /\ Len(n.cp) = Len(tok.cp)
 CountSame(t, tok) == Len(SelectSeq(Leaves(t), LAMBDA n : SameText(n, tok)))
-SurvivesInOneToken(out, tok, inp) == CountSame(out, tok) >= 1 /\ CountSame(out, tok) >= CountSame(inp, tok)
+\* (input tokens are counted by their loose text alone: '- ' with a trailing blank and '_' read the same loosely, and the '-' that comes
+\*  out of the first must not be taken for the second, which was merged into a neighbour)
+CountLoose(t, tok) == Len(SelectSeq(Leaves(t), LAMBDA n : VisL(n) = VisL(tok)))
+SurvivesInOneToken(out, tok, inp) == CountSame(out, tok) >= 1 /\ CountSame(out, tok) >= CountLoose(inp, tok)
 =============================================================================
